@@ -1,6 +1,8 @@
 use vstd::prelude::*;
 verus! {
 
+global size_of usize == 8;
+
 #[derive(Clone, Copy, PartialEq, Eq, Structural)]
 pub struct Key(pub u64);
 
@@ -139,6 +141,127 @@ pub open spec fn stored_at<V>(h: Seq<u64>, k: Seq<Option<Key>>, key: Key, i: int
 
 pub open spec fn present(h: Seq<u64>, k: Seq<Option<Key>>, key: Key) -> bool {
     exists|i: int| #[trigger] stored_at::<()>(h, k, key, i)
+}
+
+
+proof fn lemma_present_after_clear(h0: Seq<u64>, k0: Seq<Option<Key>>, v0: Seq<Option<()>>, ind: int, key: Key)
+    requires slots_ok(h0, k0, v0), stored_at::<()>(h0, k0, key, ind),
+    ensures forall|k: Key| #[trigger] present(h0.update(ind, 0), k0.update(ind, None), k) <==> (k != key && present(h0, k0, k)),
+{
+    let h1 = h0.update(ind, 0);
+    let k1 = k0.update(ind, None);
+    assert forall|k: Key| #[trigger] present(h1, k1, k) <==> (k != key && present(h0, k0, k)) by {
+        if present(h1, k1, k) {
+            let i = choose|i: int| #[trigger] stored_at::<()>(h1, k1, k, i);
+            assert(i != ind);
+            assert(stored_at::<()>(h0, k0, k, i));
+            if k == key { assert(h0[i] != 0 && h0[ind] != 0); assert(k0[i].unwrap() != k0[ind].unwrap()); }
+        }
+        if k != key && present(h0, k0, k) {
+            let i = choose|i: int| #[trigger] stored_at::<()>(h0, k0, k, i);
+            assert(i != ind);
+            assert(stored_at::<()>(h1, k1, k, i));
+        }
+    }
+}
+
+proof fn lemma_present_move(h: Seq<u64>, ks: Seq<Option<Key>>, hole: int, j: int)
+    requires 0 <= hole < h.len(), 0 <= j < h.len(), h.len() == ks.len(), hole != j, h[hole] == 0, h[j] != 0,
+    ensures forall|k: Key| #[trigger] present(h.update(hole, h[j]).update(j, 0), ks.update(hole, ks[j]).update(j, None), k) <==> present(h, ks, k),
+{
+    let h2 = h.update(hole, h[j]).update(j, 0);
+    let k2 = ks.update(hole, ks[j]).update(j, None);
+    assert forall|k: Key| #[trigger] present(h2, k2, k) <==> present(h, ks, k) by {
+        if present(h2, k2, k) {
+            let i = choose|i: int| #[trigger] stored_at::<()>(h2, k2, k, i);
+            if i == hole { assert(stored_at::<()>(h, ks, k, j)); } else { assert(stored_at::<()>(h, ks, k, i)); }
+        }
+        if present(h, ks, k) {
+            let i = choose|i: int| #[trigger] stored_at::<()>(h, ks, k, i);
+            if i == j { assert(stored_at::<()>(h2, k2, k, hole)); } else { assert(i != hole); assert(stored_at::<()>(h2, k2, k, i)); }
+        }
+    }
+}
+
+proof fn lemma_shift_move(h: Seq<u64>, cap: usize, hole: int, j: int)
+    requires cap >= 1, h.len() == cap,
+        0 <= hole < cap, 0 <= j < cap, hole != j, h[hole] == 0, h[j] != 0,
+        chain_except(h, cap, hole),
+        in_range(home(h[j], cap), j, hole),
+    ensures chain_except(h.update(hole, h[j]).update(j, 0), cap, j),
+{
+    let h2 = h.update(hole, h[j]).update(j, 0);
+    lemma_home_bound(h[j], cap);
+    assert forall|i: int, x: int| 0 <= i < cap && 0 <= x < cap && #[trigger] h2[i] != 0 && in_range(home(h2[i], cap), i, x) && x != j
+        implies #[trigger] h2[x] != 0 by {
+        if i == hole {
+            assert(in_range(home(h[j], cap), j, x));
+            assert(h[j] != 0);
+            assert(h[x] != 0);
+        } else {
+            assert(h[i] != 0);
+            lemma_home_bound(h[i], cap);
+            if x != hole { assert(h[x] != 0); }
+        }
+    }
+}
+
+proof fn lemma_shift_done(h: Seq<u64>, cap: usize, hole: int, j: int)
+    requires cap >= 1, h.len() == cap,
+        0 <= hole < cap, 0 <= j < cap, hole != j, h[hole] == 0, h[j] == 0,
+        chain_except(h, cap, hole), settled(h, cap, hole, j),
+    ensures chain(h, cap),
+{
+    assert forall|i: int, x: int| 0 <= i < cap && 0 <= x < cap && #[trigger] h[i] != 0 && in_range(home(h[i], cap), i, x)
+        implies #[trigger] h[x] != 0 by {
+        lemma_home_bound(h[i], cap);
+        if x == hole {
+            if in_range(nxt(hole, cap as int), j, i) {
+                assert(false);
+            } else {
+                assert(in_range(home(h[i], cap), i, j));
+                assert(h[j] != 0);
+                assert(false);
+            }
+        }
+    }
+}
+
+proof fn lemma_slots_move<V>(h: Seq<u64>, ks: Seq<Option<Key>>, vs: Seq<Option<V>>, hole: int, j: int)
+    requires slots_ok(h, ks, vs), h.len() == ks.len(), h.len() == vs.len(),
+        0 <= hole < h.len(), 0 <= j < h.len(), hole != j, h[hole] == 0, h[j] != 0,
+    ensures slots_ok(h.update(hole, h[j]).update(j, 0), ks.update(hole, ks[j]).update(j, None), vs.update(hole, vs[j]).update(j, None)),
+{
+    let h2 = h.update(hole, h[j]).update(j, 0);
+    let k2 = ks.update(hole, ks[j]).update(j, None);
+    assert forall|a: int, b: int| 0 <= a < h2.len() && 0 <= b < h2.len() && a != b && #[trigger] h2[a] != 0 && #[trigger] h2[b] != 0
+        implies k2[a].unwrap() != k2[b].unwrap() by {
+        let a0 = if a == hole { j } else { a };
+        let b0 = if b == hole { j } else { b };
+        assert(h[a0] != 0 && h[b0] != 0 && a0 != b0);
+    }
+}
+
+proof fn lemma_values_move<V>(h: Seq<u64>, ks: Seq<Option<Key>>, vs: Seq<Option<V>>, h0: Seq<u64>, k0: Seq<Option<Key>>, v0: Seq<Option<V>>, hole: int, j: int)
+    requires h.len() == ks.len(), h.len() == vs.len(), h0.len() == h.len(), k0.len() == h.len(), v0.len() == h.len(),
+        0 <= hole < h.len(), 0 <= j < h.len(), hole != j, h[hole] == 0, h[j] != 0,
+        forall|a: int, a0: int| 0 <= a < h.len() && 0 <= a0 < h.len() && #[trigger] h[a] != 0 && #[trigger] h0[a0] != 0 && ks[a] == k0[a0] ==> vs[a] == v0[a0],
+    ensures ({
+        let h2 = h.update(hole, h[j]).update(j, 0);
+        let k2 = ks.update(hole, ks[j]).update(j, None);
+        let v2 = vs.update(hole, vs[j]).update(j, None);
+        forall|a: int, a0: int| 0 <= a < h.len() && 0 <= a0 < h.len() && #[trigger] h2[a] != 0 && #[trigger] h0[a0] != 0 && k2[a] == k0[a0] ==> v2[a] == v0[a0]
+    }),
+{
+    let h2 = h.update(hole, h[j]).update(j, 0);
+    let k2 = ks.update(hole, ks[j]).update(j, None);
+    let v2 = vs.update(hole, vs[j]).update(j, None);
+    assert forall|a: int, a0: int| 0 <= a < h.len() && 0 <= a0 < h.len() && #[trigger] h2[a] != 0 && #[trigger] h0[a0] != 0 && k2[a] == k0[a0]
+        implies v2[a] == v0[a0] by {
+        let a1 = if a == hole { j } else { a };
+        assert(h[a1] != 0);
+        assert(ks[a1] == k0[a0]);
+    }
 }
 
 impl<V> CaoHashMap<V> {
@@ -324,6 +447,142 @@ impl<V> CaoHashMap<V> {
                 }
             }
         }
+    }
+
+    #[verifier::rlimit(60)]
+    fn remove_with_hint(&mut self, hash: u64, key: &Key) -> (r: Option<V>)
+        requires old(self).wf(), hash == spec_hash(*key),
+        ensures final(self).wf(),
+            final(self).capacity == old(self).capacity,
+            final(self)@ == old(self)@.remove(*key),
+            final(self).count == old(self).count - (if old(self)@.dom().contains(*key) { 1int } else { 0int }),
+            match r {
+                Some(v) => old(self)@.dom().contains(*key) && v == old(self)@[*key],
+                None => !old(self)@.dom().contains(*key),
+            },
+    {
+        let i = self.find_ind(hash, key);
+        if self.hashes[i] == 0 {
+            proof {
+                if self@.dom().contains(*key) {
+                    let w = choose|w: int| #[trigger] stored_at::<()>(self.hashes@, self.keys@, *key, w);
+                    self.lemma_lookup(*key, w, i as int);
+                }
+                assert(final(self)@ =~= old(self)@.remove(*key));
+            }
+            return None;
+        }
+        let ghost h0 = self.hashes@;
+        let ghost k0 = self.keys@;
+        let ghost v0 = self.values@;
+        proof {
+            assert(stored_at::<()>(h0, k0, *key, i as int));
+            let w = choose|w: int| #[trigger] stored_at::<()>(h0, k0, *key, w);
+            self.lemma_lookup(*key, w, i as int);
+            lemma_occupied_update(h0, i as int, 0);
+            lemma_exists_empty(h0);
+            lemma_present_after_clear(h0, k0, Seq::new(h0.len(), |x: int| if h0[x] != 0 { Some(()) } else { None }), i as int, *key);
+        }
+        let ghost e0: int = choose|x: int| 0 <= x < self.capacity && #[trigger] self.hashes@[x] == 0;
+        let _k = self.keys[i].take();            // R2: drop_in_place(keys.add(i))
+        let result = self.values[i].take();      // R2: ptr::read(values.add(i))
+        self.hashes[i] = 0;
+        self.count -= 1;
+
+        let cap = self.capacity;
+        let mut hole = i;
+        proof { lemma_mod_step(i, cap); }
+        let mut j = (i + 1) % cap;
+        proof {
+            assert(chain_except(self.hashes@, cap, hole as int)) by {
+                assert forall|a: int, x: int| 0 <= a < cap && 0 <= x < cap && #[trigger] self.hashes@[a] != 0
+                    && in_range(home(self.hashes@[a], cap), a, x) && x != hole as int implies #[trigger] self.hashes@[x] != 0 by {
+                    assert(h0[a] != 0);
+                    assert(h0[x] != 0);
+                }
+            }
+        }
+        loop
+            invariant
+                cap == self.capacity, cap >= 1, cap <= 0x4000_0000_0000,
+                self.hashes@.len() == cap, self.keys@.len() == cap, self.values@.len() == cap, h0.len() == cap, k0.len() == cap, v0.len() == cap,
+                hole < cap, j < cap, j != hole, 0 <= e0 < cap, e0 != hole as int,
+                self.hashes@[e0] == 0,
+                self.hashes@[hole as int] == 0,
+                self.count == occupied(self.hashes@), self.count + 1 < cap,
+                slots_ok(self.hashes@, self.keys@, self.values@),
+                slots_ok(h0, k0, v0),
+                region_full(self.hashes@, cap, hole as int, j as int),
+                chain_except(self.hashes@, cap, hole as int),
+                settled(self.hashes@, cap, hole as int, j as int),
+                forall|k: Key| #[trigger] present(self.hashes@, self.keys@, k) <==> (k != *key && present(h0, k0, k)),
+                forall|a: int, a0: int| 0 <= a < cap && 0 <= a0 < cap && #[trigger] self.hashes@[a] != 0 && #[trigger] h0[a0] != 0 && self.keys@[a] == k0[a0]
+                    ==> self.values@[a] == v0[a0],
+            ensures self.hashes@[j as int] == 0,
+            decreases (if j as int <= e0 { e0 - j as int } else { e0 + cap as int - j as int }),
+        {
+            let hj = self.hashes[j];
+            if hj == 0 {
+                break;
+            }
+            let hm = (hj.wrapping_mul(2654435769) as usize) % cap;
+            proof {
+                lemma_home_bound(hj, cap);
+                lemma_mod_step(j, cap);
+                lemma_dist(j, hm, cap);
+                lemma_dist(j, hole, cap);
+                if nxt(j as int, cap as int) == hole as int {
+                    assert(in_range(nxt(hole as int, cap as int), j as int, e0) || e0 == j as int);
+                    assert(false);
+                }
+            }
+            let ghost old_keys = self.keys@;
+            let ghost old_vals = self.values@;
+            if (j + cap - hm) % cap >= (j + cap - hole) % cap {
+                proof {
+                    let h = self.hashes@;
+                    assert(in_range(home(h[j as int], cap), j as int, hole as int));
+                    lemma_occupied_update(h, hole as int, hj);
+                    lemma_occupied_update(h.update(hole as int, hj), j as int, 0);
+                    lemma_present_move(h, self.keys@, hole as int, j as int);
+                    lemma_shift_move(h, cap, hole as int, j as int);
+                    lemma_slots_move(h, self.keys@, self.values@, hole as int, j as int);
+                    lemma_values_move(h, self.keys@, self.values@, h0, k0, v0, hole as int, j as int);
+                }
+                self.hashes[hole] = hj;
+                let k = self.keys[j].take();
+                self.keys[hole] = k;
+                let v = self.values[j].take();
+                self.values[hole] = v;
+                self.hashes[j] = 0;
+                proof {
+                    let ghost_j = j as int; let ghost_hole = hole as int;
+                    assert(self.keys@ =~= old_keys.update(ghost_hole, old_keys[ghost_j]).update(ghost_j, None));
+                    assert(self.values@ =~= old_vals.update(ghost_hole, old_vals[ghost_j]).update(ghost_j, None));
+                }
+                hole = j;
+            } else {
+                proof {
+                    assert(!in_range(home(self.hashes@[j as int], cap), j as int, hole as int));
+                }
+            }
+            j = (j + 1) % cap;
+        }
+        proof {
+            lemma_shift_done(self.hashes@, cap, hole as int, j as int);
+            assert(final(self)@ =~= old(self)@.remove(*key)) by {
+                assert forall|k: Key| final(self)@.dom().contains(k) <==> old(self)@.remove(*key).dom().contains(k) by {
+                    assert(present(self.hashes@, self.keys@, k) <==> (k != *key && present(h0, k0, k)));
+                }
+                assert forall|k: Key| final(self)@.dom().contains(k) implies #[trigger] final(self)@[k] == old(self)@.remove(*key)[k] by {
+                    let w = choose|w: int| #[trigger] stored_at::<()>(self.hashes@, self.keys@, k, w);
+                    assert(present(self.hashes@, self.keys@, k));
+                    let w0 = choose|w0: int| #[trigger] stored_at::<()>(h0, k0, k, w0);
+                    assert(self.keys@[w] == k0[w0]);
+                }
+            }
+        }
+        result
     }
 }
 
